@@ -134,6 +134,13 @@ type c10Scenario struct {
 	// cloud outage: the fault bits CF apply to every reconcile/collector step with
 	// From <= index < To (including the two halves of an "rr" step)
 	Outage *c10Outage `json:"outage,omitempty"`
+	// the N-th (1-based) DeleteNetworkInterface / DetachNetworkInterface call of the history fails
+	NthFail []c10Nth `json:"nth_fail,omitempty"`
+}
+
+type c10Nth struct {
+	Kind string `json:"kind"` // Delete | Detach
+	N    int    `json:"n"`
 }
 
 type c10Outage struct {
@@ -250,6 +257,10 @@ func c10NewWorld(c *vt.Ctx, s c10Scenario) *c10World {
 	}
 	w.cloud = c10NewCloud(s.Dual, age)
 	w.cloud.onPull = w.onPull
+	for _, n := range s.NthFail {
+		w.cloud.nthFail[fmt.Sprintf("%s/%d", n.Kind, n.N)] = true
+		w.faulted = true
+	}
 
 	var objs []client.Object
 	cache := status.NewCache[status.NodeStatus]()
@@ -553,6 +564,18 @@ func (w *c10World) onPull(kind, eni string) {
 				continue
 			}
 			referenced = true
+			if kind == "Delete" && len(r.Spec.Allocations) >= 2 {
+				w.cloud.mu.Lock()
+				hit := false
+				if ce, ok := w.cloud.enis[eni]; ok {
+					hit = w.cloud.fail&c10CFBit("Delete", ce.Slot) != 0
+				}
+				hit = hit || w.cloud.nthFail[fmt.Sprintf("Delete/%d", w.cloud.kindSeq["Delete"]+1)]
+				w.cloud.mu.Unlock()
+				if hit {
+					w.c.Label("fault:delete-of-2eni-record")
+				}
+			}
 			uid := r.Annotations[types.PodUID]
 			pod := &corev1.Pod{}
 			err := w.base.Get(context.Background(), k8stypes.NamespacedName{Namespace: r.Namespace, Name: r.Name}, pod)
@@ -1058,6 +1081,9 @@ func c10OursTags() []ecs.Tag {
 
 func (w *c10World) settle(rounds int) {
 	w.c.Trace("settle: faults off, %d rounds of (pod, pod-eni) per name", rounds)
+	w.cloud.mu.Lock()
+	w.cloud.nthFail = map[string]bool{}
+	w.cloud.mu.Unlock()
 	for r := 0; r < rounds; r++ {
 		for i := range w.pods {
 			w.runOp(1000+r, c10Op{K: "rpod", P: i})
